@@ -34,6 +34,8 @@ class DistinguisherMixin(abc.ABC):
 
         if traces.shape[0] != data.shape[0]:
             raise ValueError(f'traces and data must have the same first dimension, not {traces.shape[0]} for traces and {data.shape[0]} for data.')
+        if traces.ndim != 2:
+            raise ValueError(f'traces must be a 2 dimensions array, not {traces.ndim}.')
 
         logger.info(f'Start update of distinguisher {self.__class__.__name__} with traces {traces.shape} and data {data.shape}.')
         o_shape = data.shape
